@@ -244,8 +244,9 @@ def _extract_runner(work):
     return ""
 
 
-def _go2lean(work):
-    """regenerate lean/CanVerif/Gen/DataGo.lean from /repo's working tree (T1); '' on success"""
+def _go2lean(work, groups=""):
+    """regenerate lean/CanVerif/Gen/DataGo.lean from /repo's working tree (T1), restricted to the function groups the
+    property's bridge needs, so that a construct the translator refuses elsewhere does not take this tie away; '' on success"""
     import subprocess, os
     here = os.path.dirname(os.path.dirname(os.path.abspath(__file__)))
     out = os.path.join(here, "lean", "CanVerif", "Gen", "DataGo.lean")
@@ -255,7 +256,7 @@ def _go2lean(work):
     except OSError:
         pass
     env = dict(os.environ, GOFLAGS="-mod=mod", GOPROXY="off", GOSUMDB="off", GOTOOLCHAIN="local")
-    r = subprocess.run(["go", "run", "./cmd/go2lean", os.environ.get("VERIF_REPO", "/repo"), out],
+    r = subprocess.run(["go", "run", "./cmd/go2lean", os.environ.get("VERIF_REPO", "/repo"), out] + ([groups] if groups else []),
                        cwd=os.path.join(here, "harness"), env=env, stdout=subprocess.PIPE, stderr=subprocess.STDOUT, text=True)
     if r.returncode != 0:
         try:
@@ -266,7 +267,12 @@ def _go2lean(work):
     return ""
 
 
-PRE_PROVE = {"C13": _extract_runner, "C01": _go2lean, "C02": _go2lean, "C17": _go2lean, "C08": _go2lean, "C06": _go2lean, "C04": _go2lean, "C05": _go2lean, "C20": _go2lean}
+def _g(groups):
+    return lambda work: _go2lean(work, groups)
+
+
+PRE_PROVE = {"C13": _extract_runner, "C01": _g("data"), "C02": _g("data"), "C17": _g("data"), "C08": _g("data,signal"),
+             "C06": _g("data,frame"), "C04": _g("msgid"), "C05": _g("msgid"), "C20": _g("netlink")}
 def _unicode_tie(work, impl):
     """the committed unicode tables equal what the toolchain's unicode package says now"""
     import subprocess, os
